@@ -171,10 +171,9 @@ func getLabels(ctr types.Container) containerLabels {
 
 func (c containerLabels) Match(matchers []logql.LabelMatcher) bool {
 	for _, matcher := range matchers {
-		value, ok := c.labels[string(matcher.Label)]
-		if !ok {
-			return false
-		}
+		// A label the container does not have behaves as the empty string,
+		// like in the engine's own label matcher.
+		value := c.labels[string(matcher.Label)]
 		if !match(matcher, value) {
 			return false
 		}
